@@ -903,7 +903,9 @@ def run_px(h, name, fn, cap=30, order=('core', 'nlsat'), feas_ms=300, max_paths=
                 if not bad:
                     reach = True
                     continue
-            st, m, sv, dt, att = sym.solve(pc + [atom.neg(0)], per_query_cap or cap, order=order)
+            # `order` may be a dict goal name -> solver order (key None = default) when goals of one harness differ in kind
+            st, m, sv, dt, att = sym.solve(pc + [atom.neg(0)], per_query_cap or cap,
+                                           order=(order.get(gname, order.get(None, ('core', 'nlsat'))) if isinstance(order, dict) else order))
             solver_used.add(sv)
             rec['attempts'].append(('path%d' % g['path'], st, round(dt, 3)))
             if st == 'unsat':
